@@ -238,22 +238,37 @@ bool run_scenario(const Scenario& sc)
     // logical promptness: node visits after the release until the answer
     bool lost = false;
     auto t0 = std::chrono::steady_clock::now();
+    auto last_progress = t0;
+    long last_seen = S.after_release.load();
     for (;;)
     {
         if (seen.bestmoves > 0) break;
         if (gui_until(seen, [](const std::string& l) { return l.rfind("bestmove", 0) == 0; }, 20)) break;
-        if (S.after_release.load() > B)
+        long now_visits = S.after_release.load();
+        if (now_visits > B)
         {
             lost = true;
             break;
         }
-        if (std::chrono::steady_clock::now() - t0 > std::chrono::seconds(60))
+        auto now = std::chrono::steady_clock::now();
+        if (now_visits != last_seen)
         {
-            // watchdog: no answer, and the node counter did not pass the bound either
-            rec.violation(std::string(finite ? "no-bestmove@" : "no-bestmove-and-no-progress@") + sc.name(), ex);
+            last_seen = now_visits;
+            last_progress = now;
+        }
+        if (now - t0 > std::chrono::seconds(90))
+        {
+            // wall-clock watchdog. It is a verdict only together with a logical witness: no answer AND not a single node
+            // visit for the last 45 s (the search thread is neither finishing nor searching: it hangs). Otherwise the
+            // machine is just slow: inconclusive.
+            if (now - last_progress > std::chrono::seconds(45))
+                rec.violation("hang-after-stop(no answer, no node visit for 45 s)@" + sc.name(), ex);
+            else
+                rec.count("inconclusive:watchdog-without-witness");
             return false;
         }
     }
+    (void)finite;
     long visits = S.after_release.load();
     rec.count("max-visits-after-release", 0);
     if (visits > rec.counters["max-visits-after-release"]) rec.counters["max-visits-after-release"] = visits;
